@@ -161,9 +161,7 @@ theorem cmp_ok {ns : List Node} {ch : List Nat} {f : Frame} {j : Nat} {ms : List
     ThreadOK hash ns ch
       (if (nodeAt ns f.tb).tab.keyAt ((f.base + j) % f.n) == some f.e.1
         then .ret f (.slot f.tb ((f.base + j) % f.n) false)
-        else match ms with
-          | [] => afterMatch f
-          | _ => .cmp f ms) := by
+        else afterCmp f ms) := by
   obtain ⟨p, hf, hp, hw, hd, _, pre, hpre, hcmp⟩ := h
   have hok := hnodes _ hf.lt
   have hjm : j ∈ matchTag f.w (tagOf (hash f.e.1)) := by rw [hpre]; simp
@@ -186,11 +184,13 @@ theorem cmp_ok {ns : List Node} {ch : List Nat} {f : Frame} {j : Nat} {ms : List
       · simp at h1; subst h1; exact hmiss'
     cases ms with
     | nil =>
+      show ThreadOK hash ns ch (afterMatch f)
       apply afterMatch_ok hc hok hf hp hw
       intro _ j' hj'
       rw [hpre] at hj'
       exact hall j' hj'
     | cons j2 rest =>
+      show ThreadOK hash ns ch (.cmp f (j2 :: rest))
       exact ⟨p, hf, hp, hw, hd, by simp, pre ++ [j], by rw [hpre]; simp, hall⟩
 
 /-! ### failed slot CAS, yield -/
